@@ -1,0 +1,79 @@
+//go:build verif
+// +build verif
+
+// Contracts for the deductive verification of this package (see /verif).
+//
+// This file contains no code: with or without the "verif" build tag the
+// compiled package is byte-for-byte the same.  The //@ lines are read by the
+// VC generator /verif/govc, which checks every function listed with
+// "//@ func" against the real function body in this directory and trusts
+// every "//@ assumed func" / "//@ axiom" entry (these are listed as the
+// trusted base in the evidence).
+
+package flags
+
+// ===================================================================
+// Library contracts (trusted)
+// ===================================================================
+
+//@ assumed func strings.HasPrefix(s string, prefix string) (r bool)
+//@   pure
+//@   ensures r == hasPrefix(s, prefix)
+//@ assumed func strings.HasSuffix(s string, suffix string) (r bool)
+//@   pure
+//@   ensures r == hasSuffix(s, suffix)
+//@ assumed func strings.Contains(s string, sub string) (r bool)
+//@   pure
+//@   ensures r == contains(s, sub)
+//@ assumed func strings.Index(s string, sub string) (r int)
+//@   pure
+//@   ensures r == indexOf(s, sub)
+//@ assumed func strings.IndexByte(s string, b byte) (r int)
+//@   pure
+//@   ensures r == indexOf(s, byteStr(b))
+
+// UTF-8 decoding, exactly as unicode/utf8 defines it (first rune of s and its
+// width in bytes; an invalid or truncated sequence decodes to U+FFFD, width 1).
+//@ pure func cont(s string, i int) bool = 128 <= s[i] && s[i] <= 191
+//@ pure func utf8ok2(s string) bool = 194 <= s[0] && s[0] <= 223 && cont(s, 1)
+//@ pure func utf8ok3(s string) bool = 224 <= s[0] && s[0] <= 239 && cont(s, 1) && cont(s, 2) && (s[0] != 224 || s[1] >= 160) && (s[0] != 237 || s[1] <= 159)
+//@ pure func utf8ok4(s string) bool = 240 <= s[0] && s[0] <= 244 && cont(s, 1) && cont(s, 2) && cont(s, 3) && (s[0] != 240 || s[1] >= 144) && (s[0] != 244 || s[1] <= 143)
+//@ pure func utf8w(s string) int = ite(len(s) == 0, 0, ite(s[0] < 128, 1, ite(utf8ok2(s), 2, ite(utf8ok3(s), 3, ite(utf8ok4(s), 4, 1)))))
+//@ pure func utf8r(s string) int = ite(len(s) == 0, 65533, ite(s[0] < 128, s[0], ite(utf8ok2(s), (s[0]-192)*64 + (s[1]-128), ite(utf8ok3(s), (s[0]-224)*4096 + (s[1]-128)*64 + (s[2]-128), ite(utf8ok4(s), (s[0]-240)*262144 + (s[1]-128)*4096 + (s[2]-128)*64 + (s[3]-128), 65533)))))
+//@ pure func runeLen(r int) int = ite(r < 0, -1, ite(r < 128, 1, ite(r < 2048, 2, ite(55296 <= r && r <= 57343, -1, ite(r < 65536, 3, ite(r <= 1114111, 4, -1))))))
+
+//@ assumed func utf8.DecodeRuneInString(s string) (r rune, n int)
+//@   pure
+//@   ensures r == rune(utf8r(s)) && n == utf8w(s)
+//@ assumed func utf8.RuneLen(r rune) (n int)
+//@   pure
+//@   ensures n == runeLen(int(r))
+
+// ===================================================================
+// optstyle_other.go
+// ===================================================================
+
+//@ func argumentStartsOption(arg string) (r bool)
+//@   props C04 C18
+//@   ensures r == (len(arg) > 0 && arg[0] == '-')
+
+//@ func argumentIsOption(arg string) (r bool)
+//@   props C02 C03 C04 C07
+//@   ensures r == ((len(arg) > 1 && arg[0] == '-' && arg[1] != '-') || (len(arg) > 2 && arg[0] == '-' && arg[1] == '-' && arg[2] != '-'))
+
+//@ func stripOptionPrefix(optname string) (prefix string, name string, islong bool)
+//@   props C02 C03 C04 C07
+//@   ensures hasPrefix(optname, "--") ==> prefix == "--" && name == optname[2:] && islong
+//@   ensures !hasPrefix(optname, "--") && hasPrefix(optname, "-") ==> prefix == "-" && name == optname[1:] && !islong
+//@   ensures !hasPrefix(optname, "-") ==> prefix == "" && name == optname && !islong
+//@   ensures prefix + name == optname
+
+//@ func splitOption(prefix string, option string, islong bool) (name string, split string, arg *string)
+//@   props C02 C04 C07
+//@   let c, n := utf8.DecodeRuneInString(option)
+//@   ensures islong ==> ((arg != nil) == contains(option, "="))
+//@   ensures[C02] !islong ==> ((arg != nil) == (0 < n && n < len(option) && option[n] == '='))
+//@   ensures[C02] !islong && arg != nil ==> len(name) == n
+//@   ensures arg != nil ==> option == name + "=" + *arg && split == "="
+//@   ensures arg != nil && islong ==> !contains(name, "=")
+//@   ensures arg == nil ==> name == option && split == ""
